@@ -26,6 +26,9 @@ RULE = ('generated programs (stratified, control bodies, meta-calls, facts whose
         'line:column. Non-trivial = program containing an atom with a line break or non-ASCII text, or run with a debug '
         'flag; distinct = hash of (sources, flags, io mode)')
 ASSUMPTIONS = ['comment lines are the lines starting with "#"', 'subprocesses run with LANG=C.UTF-8 (stdout encoding UTF-8)']
+RULE_ADDED = (' Added after the rounds of independently written changes (DESIGN.md 12.2): ' +
+              'sources named twice; PYTHONHASHSEED varied per run; 64 KiB - 1 MiB sources through files and standard input; named pipes and /dev/stdin; lines split as Python splits them; directives with `_` between the clauses; decomposed characters; sources that are not valid UTF-8 (must exit non-zero).')
+RULE = RULE + RULE_ADDED
 
 FLAGS = ['-d', '--debug-parser', '--debug-generator', '--debug-filename']
 
